@@ -5,6 +5,7 @@ import (
 	"fmt"
 	"math"
 	"math/big"
+	"strings"
 	"time"
 
 	"verif/internal/core"
@@ -256,40 +257,46 @@ func runC12(r *core.Run) {
 	}
 	// strings: constructors
 	for L := 0; L <= 300; L++ {
-		r.Evaluations.Add(1)
-		content := make([]byte, L)
-		for i := range content {
-			content[i] = byte(i*7 + L)
-		}
-		for _, fn := range []string{"NewI2PString", "ToI2PString"} {
-			var s data.I2PString
-			var err error
-			if fn == "NewI2PString" {
-				s, err = data.NewI2PString(string(content))
-			} else {
-				s, err = data.ToI2PString(string(content))
+		for _, unit := range []string{"", "x", "\u00e9", "\u20ac", "\U0001F600", "\xff"} {
+			r.Evaluations.Add(1)
+			content := make([]byte, L)
+			for i := range content {
+				content[i] = byte(i*7 + L)
 			}
-			if L <= 255 {
-				want := refmodel.Str(content)
-				if err != nil || !bytes.Equal(s, want) {
-					bad("exact-bytes", fn, "len %d -> %x,%v", L, []byte(s), err)
-					continue
+			if unit != "" { // multi-byte UTF-8 content: byte length != rune count
+				content = []byte(strings.Repeat(unit, L/len(unit)))
+			}
+			L := len(content)
+			for _, fn := range []string{"NewI2PString", "ToI2PString"} {
+				var s data.I2PString
+				var err error
+				if fn == "NewI2PString" {
+					s, err = data.NewI2PString(string(content))
+				} else {
+					s, err = data.ToI2PString(string(content))
 				}
-				if d, e := s.Data(); e != nil || d != string(content) {
-					bad("inverse", "I2PString.Data", "len %d: %v", L, e)
+				if L <= 255 {
+					want := refmodel.Str(content)
+					if err != nil || !bytes.Equal(s, want) {
+						bad("exact-bytes", fn, "len %d -> %x,%v", L, []byte(s), err)
+						continue
+					}
+					if d, e := s.Data(); e != nil || d != string(content) {
+						bad("inverse", "I2PString.Data", "len %d: %v", L, e)
+					}
+					if d, e := s.DataSafe(); e != nil || d != string(content) {
+						bad("inverse", "I2PString.DataSafe", "len %d: %v", L, e)
+					}
+					if n, e := s.Length(); e != nil || n != L {
+						bad("inverse", "I2PString.Length", "len %d -> %d,%v", L, n, e)
+					}
+					if !s.IsValid() {
+						bad("inverse", "I2PString.IsValid", "len %d reported invalid", L)
+					}
+					r.Distinct([]byte("str"), want)
+				} else if err == nil {
+					bad("reject", fn, "len %d accepted (%d bytes out)", L, len(s))
 				}
-				if d, e := s.DataSafe(); e != nil || d != string(content) {
-					bad("inverse", "I2PString.DataSafe", "len %d: %v", L, e)
-				}
-				if n, e := s.Length(); e != nil || n != L {
-					bad("inverse", "I2PString.Length", "len %d -> %d,%v", L, n, e)
-				}
-				if !s.IsValid() {
-					bad("inverse", "I2PString.IsValid", "len %d reported invalid", L)
-				}
-				r.Distinct([]byte("str"), want)
-			} else if err == nil {
-				bad("reject", fn, "len %d accepted (%d bytes out)", L, len(s))
 			}
 		}
 	}
